@@ -2,6 +2,7 @@
 mod backends;
 mod c15;
 mod c16;
+mod c17;
 mod c29;
 mod c30;
 mod c33;
@@ -33,6 +34,7 @@ fn main() {
     match args.id.as_str() {
         "C15" => c15::run(&mut check),
         "C16" => c16::run(&mut check),
+        "C17" => c17::run(&mut check),
         "C29" => c29::run(&mut check),
         "C30" => c30::run(&mut check),
         "C33" => c33::run(&mut check),
